@@ -237,7 +237,9 @@ def _minimise(griffe, kind, info, old, new, shapes, mapping, inv):
 # every ordered pair of shapes for one parameter, positional-or-keyword and keyword-only; a pair of different shapes must be reported as a
 # changed default, shape -> no default as "now required", equal shapes as nothing
 DEFAULT_SHAPES = ["0", "-1", "1 + 2", "'s'", "b's'", "None", "...", "(1, 2)", "[1, 2]", "{1: 2}", "{1}", "int", "int.real", "lambda: 0", "(lambda: 0)()", "not 0", "0 if 0 else 1",
-                  "[x for x in ()]", "{**{}}", "f'{0}'", "f'{0}{1}'", """f"{f'{0}'}" """.strip(), """f"a{f'{0}b'}c" """.strip(), "len('a')", "int(**{})", "1 < 2 < 3", "-(-1)", "(yield_ := 3)"]
+                  "[x for x in ()]", "{**{}}", "f'{0}'", "f'{0}{1}'", """f"{f'{0}'}" """.strip(), """f"a{f'{0}b'}c" """.strip(), "len('a')", "int(**{})", "1 < 2 < 3", "-(-1)", "(yield_ := 3)",
+                  # the same tokens grouped differently (different values for CPython)
+                  "(1 + 2) * 3", "1 + 2 * 3", "-(1 + 2)", "(-1) + 2", "(2 ** 3) ** 2", "2 ** 3 ** 2", "(1 or 0) and 0", "1 or 0 and 0", "(3 > 2) > 1", "3 > 2 > 1"]
 
 
 def _run_default_shapes(griffe, acc):
@@ -307,6 +309,33 @@ def _run_dynamic_defaults(griffe, acc):
                         acc.violation(f"dynamic-default/unreported-change/{shape}/{kind}", f"a={d1} -> a={d2} (inspected): no 'default was changed' breakage ({kinds})", case, None, size=len(d1) + len(d2))
 
 
+# functions under a decorator that leaves the signature alone (a registry, a dispatcher, a call, an attribute chain -- some of them NAMED like typing's
+# `overload` without being it): the definition CPython binds is the one written, and the comparison must say what it says without the decorator
+DECO_PRELUDE = "import functools\nimport reg\nimport reg.sub\nfrom disp import overload as ov\nfrom disp import overload\n"
+DECORATORS = ["@reg.register", "@reg.overload", "@reg.sub.overload", "@reg.overload()", "@ov", "@overload", "@functools.wraps(print)", "@reg.register\n@reg.overload"]
+DECO_PAIRS = [("a", "a, c"), ("a=0", "a"), ("a", "*, a"), ("a, b", "a"), ("a, b", "b, a"), ("a", "a, c=0"), ("a", "a")]
+
+
+def _run_decorated(griffe, acc):
+    from pathlib import Path as _P
+
+    def mod(deco, sig):
+        return griffe.visit("m", filepath=_P("m.py"), code=DECO_PRELUDE + (deco + "\n" if deco else "") + f"def f({sig}): ...\n")
+
+    for old, new in DECO_PAIRS:
+        want = sorted(b.kind.value for b in griffe.find_breaking_changes(mod(None, old), mod(None, new)))
+        for deco in DECORATORS:
+            case = {"decorator": deco, "old": old, "new": new}
+            mo, mn = mod(deco, old), mod(deco, new)
+            if "f" not in mo.members or not mo.members["f"].is_function:
+                acc.violation("decorated/not-a-member", f"{deco} def f({old}): f is not a function member of the module ({sorted(mo.members)})", case, None, size=len(deco))
+                continue
+            got = sorted(b.kind.value for b in griffe.find_breaking_changes(mo, mn))
+            acc.case(case, outcome="decorated:" + ("reported" if got else "silent"), nontrivial=True)
+            if got != want:
+                acc.violation("decorated/differs-from-undecorated/" + ("lost" if len(got) < len(want) else "extra"), f"{deco} def f({old}) -> def f({new}): reported {got}, without the decorator {want}", case, None, size=len(deco))
+
+
 def run_shard(shard, tier):
     griffe, sigs, shapes, masks, mods, mapping = _prepare(tier)
     inv = {v: k for k, v in mapping.items()}
@@ -316,6 +345,8 @@ def run_shard(shard, tier):
         _run_default_shapes(griffe, acc)
     if shard == 1:
         _run_dynamic_defaults(griffe, acc)
+    if shard == 2:
+        _run_decorated(griffe, acc)
     for i in range(shard, len(sigs), NSHARDS):
         old = sigs[i]
         for j, new in enumerate(sigs):
@@ -356,7 +387,13 @@ def replay(case):
     boot.boot()
     import griffe
 
-    old = tuple(tuple(p) for p in case["old_sig"])
+    if "decorator" in case or ("old_sig" not in case and not case.get("dynamic_defaults")):
+        from mc.core.driver import Acc as _Acc
+
+        acc = _Acc()
+        (_run_decorated if "decorator" in case else _run_default_shapes)(griffe, acc)
+        return [(k, v["summary"], v["detail"]) for k, v in acc.violations.items()]
+    old = tuple(tuple(p) for p in case.get("old_sig", ()))
     new = tuple(tuple(p) for p in case["new_sig"])
     names = sorted({p[0] for p in old} | {p[0] for p in new} | {"a"})
     shapes = S.call_shapes(names, 4)
